@@ -26,6 +26,7 @@ func init() {
 			"(routing-payload-validated) a pushed routing table is applied only after every route was checked to have an owner (Partition.Owner panics on an empty list); " +
 			"(alloc-size-bounded) slice allocations in handler-reachable code take their size from constants or lengths of existing data, never from an unbounded request value; " +
 			"(subscriber-loop-exits-on-read-error) the detached subscriber loop ends when reading a command fails; " +
+			"(no-self-request-under-lock) the walks over the primary owners list that send an entry request while the fragment lock is held skip this member itself (its own handler would wait for that lock until the client times out; background eviction runs on previous owners too); " +
 			"(size-boundary-agreement) shared with C11: an entry exactly as large as a table is rejected instead of making Put spin. " +
 			"NOT decided: malformed payloads inside arguments (msgpack tables, encoded entries), memory exhaustion, by-design blocking (DM.LOCK deadline), socket-level byte streams (redcon's parser is outside the repository).",
 		Assume: []string{
@@ -46,6 +47,7 @@ func checkC16(r *core.Run) {
 	c16AllocSizes(r)
 	c16SubscriberLoop(r)
 	c16ParseErrorsChecked(r)
+	c16NoSelfRequestUnderLock(r)
 	kvSizeBoundaryAgreement(r)
 }
 
